@@ -76,6 +76,10 @@ pub struct ServerState {
     pub fail_writes_after: Option<usize>,
     /// at most this many bytes are accepted per write call
     pub write_chunk: usize,
+    /// accept the client's pubKeyAuth even when it does not unseal (a server that does not care, or cannot, verify it)
+    pub lenient_pubkey: bool,
+    /// after a faulted message: end the TLS session in an orderly way (close_notify) and say nothing more
+    pub close_after_fault: bool,
     /// plaintext bytes per TLS record when application data is sent
     pub record_chunk: usize,
     /// refuse the n-th write call from now (0 = the next one) with this error, consuming nothing; later calls work
@@ -232,6 +236,8 @@ impl ServerState {
             fail_writes_after: None,
             write_chunk: usize::MAX,
             record_chunk: usize::MAX,
+            close_after_fault: false,
+            lenient_pubkey: false,
             fail_write_once: None,
             tls: None,
             tls_identity: 0,
@@ -283,6 +289,10 @@ impl ServerState {
             }
         }
         self.push_bytes(kind, &bytes, faulted);
+        if faulted && self.close_after_fault {
+            self.close_tls();
+            self.answer = false;
+        }
     }
 
     pub fn push_bytes(&mut self, kind: &str, bytes: &[u8], faulted: bool) {
@@ -405,6 +415,7 @@ impl ServerState {
                 self.nla_log.client_pubkey_plain = Some(plain.clone());
                 match &plain {
                     Ok(p) if *p == id.subject_public_key => {}
+                    _ if self.lenient_pubkey => {}
                     _ => return,
                 }
                 let honest_plain = cssp::le_increment(&id.subject_public_key);
